@@ -263,6 +263,25 @@ func (e *pathEngine) Run(fn *ssa.Function, args []AV, presetFacts map[int]Nilnes
 	return res, args
 }
 
+// RunFrom enumerates the paths of fn that start at block b (as entered from pred), with the given values preset in
+// the frame; values defined before b that are not preset evaluate to fresh symbols.
+func (e *pathEngine) RunFrom(fn *ssa.Function, b, pred *ssa.BasicBlock, preset map[ssa.Value]AV) []Outcome {
+	st := &pathState{facts: map[int]Nilness{}, cells: map[cellKey]AV{}, globals: map[*ssa.Global]AV{}, intEq: map[string]int64{}, intNeq: map[string]map[int64]bool{}}
+	fr := &frame{fn: fn, env: map[ssa.Value]AV{}, visits: map[*ssa.BasicBlock]int{}}
+	for k, v := range preset {
+		fr.env[k] = v
+	}
+	e.Inlined[fn] = true
+	e.stack = append(e.stack, fn)
+	outs := e.execBlock(fr, b, pred, st)
+	e.stack = e.stack[:len(e.stack)-1]
+	res := make([]Outcome, 0, len(outs))
+	for _, o := range outs {
+		res = append(res, Outcome{Exit: o.kind, ExitCode: o.exitCode, Results: o.results, Trace: o.st.trace, Facts: o.st.facts, Recovered: o.st.recovered, PanicAt: o.panicAt, PanicIn: o.panicIn, Decisions: o.st.decisions})
+	}
+	return res
+}
+
 func zeroAV(t types.Type) AV {
 	switch t.Underlying().(type) {
 	case *types.Pointer, *types.Interface, *types.Slice, *types.Map, *types.Chan, *types.Signature:
@@ -333,6 +352,11 @@ func (e *pathEngine) eval(fr *frame, st *pathState, v ssa.Value) AV {
 		return AV{Kind: avNonNil, Global: x} // address of a global
 	case *ssa.Builtin:
 		return AV{Kind: avNonNil}
+	case *ssa.Alloc:
+		// a local cell allocated in a block this exploration did not start from (RunFrom): its address is still known
+		a := AV{Kind: avAddr, Alloc: x, Index: -1}
+		fr.env[v] = a
+		return a
 	}
 	// a value defined in a block this path did not go through (should not happen) or a free variable
 	a := e.fresh(nil, 0)
